@@ -251,7 +251,10 @@ func runC17(r *Run) {
 			l, rr := backSlice(bo.X), backSlice(bo.Y)
 			used := func(s *Slice) bool { return s.HasCall(func(g CallInfo) bool { return g.Name == "GetBlockGasWanted" }) }
 			tgt := func(s *Slice) bool { return s.HasField("Params", "ElasticityMultiplier") }
-			if (used(l) && tgt(rr)) || (used(rr) && tgt(l)) {
+			isZero := func(v ssa.Value) bool { n, ok := constInt(v); return ok && n == 0 }
+			// … or where there is no target to measure against (target == 0: a block gas limit below the elasticity multiplier)
+			noTarget := (tgt(l) && !used(l) && isZero(bo.Y)) || (tgt(rr) && !used(rr) && isZero(bo.X))
+			if (used(l) && tgt(rr)) || (used(rr) && tgt(l)) || noTarget {
 				if bo.Op == token.EQL {
 					eqEdges = append(eqEdges, Edge{b, 0})
 				} else {
@@ -566,6 +569,49 @@ func runC17(r *Run) {
 			}
 		}
 		r.Floor("R9", "feemarket parameters used as divisors", len(divisors), 2)
+		// the gas target is also a divisor, and it derives from a figure the feemarket's validation never sees: the
+		// consensus parameter block.max_gas (CometBFT and x/consensus accept 0, which baseapp reads as "unlimited", and any
+		// value below the elasticity multiplier gives a target of 0)
+		{
+			var nz []Edge
+			isTarget := func(v ssa.Value) bool {
+				sl := backSlice(v)
+				return sl.HasField("BlockParams", "MaxGas") && sl.HasField("Params", "ElasticityMultiplier")
+			}
+			isZero := func(v ssa.Value) bool { n, ok := constInt(v); return ok && n == 0 }
+			for _, b := range cb.Blocks {
+				ifi, ok := lastIf(b)
+				if !ok {
+					continue
+				}
+				bo, ok := ifi.Cond.(*ssa.BinOp)
+				if !ok || !((isTarget(bo.X) && isZero(bo.Y)) || (isTarget(bo.Y) && isZero(bo.X))) {
+					continue
+				}
+				switch bo.Op {
+				case token.EQL:
+					nz = append(nz, Edge{b, 1})
+				case token.NEQ, token.GTR:
+					nz = append(nz, Edge{b, 0})
+				}
+			}
+			nDiv := 0
+			eachCall(cb, func(ci CallInfo) {
+				if !(ci.Name == "Div" || ci.Name == "Quo") || ci.Recv != "Int" || ci.PkgPath != "math/big" {
+					return
+				}
+				a := ci.Instr.Common().Args
+				if !isTarget(a[len(a)-1]) {
+					return
+				}
+				nDiv++
+				call := ci.Instr
+				w := PathQuery{Fn: cb, Target: func(x ssa.Instruction) bool { return x == ssa.Instruction(call) }, DelEdge: edgeSet(nz)}.Search()
+				r.Check(w == nil && len(nz) > 0, "R9", fmt.Sprintf("%s#target-divisor-non-zero-%d", fnID(cb), nDiv), P.Pos(instrPos(call)), "the division by the gas target is reachable only where the target is not zero",
+					"CalculateBaseFee divides by the gas target (block.max_gas / ElasticityMultiplier) on a path on which it can be zero: block.max_gas = 0 (accepted by CometBFT and x/consensus, read as 'unlimited' by baseapp) or any value below the elasticity multiplier makes the BeginBlock after the first block that uses gas panic with a division by zero on every node", P.witness(w)...)
+			})
+			r.Floor("R9", "divisions by the gas target", nDiv, 2)
+		}
 	}
 	// R8: the block's declared-gas counter is a plain running sum
 	r.Rule("R8", "SHAPE.declared-gas-is-a-plain-sum: AddTransientGasWanted stores GetTransientGasWanted() + gasWanted itself — the declared gas of a block's transactions may legitimately exceed the block gas limit (the limit bounds gas used), so a counter that saturates at the limit caps the figure at the target and the base fee never rises")
